@@ -33,14 +33,14 @@ def gen_abstract(scratch):
 
 def req_cases(prop, abstract, rnd, tier):
     out = []
-    draws = 6 if tier == "quick" else 300
+    draws = 6 if tier == "quick" else 1500
     for a in abstract:
         competing = a["compQ"] or a["compB"]
         if prop == "C07" and not competing:
             continue
         if prop == "C03" and competing:
             continue
-        for d in range(draws if prop == "C03" else (3 if tier == "quick" else 120)):
+        for d in range(draws if prop == "C03" else (3 if tier == "quick" else 600)):
             c = dict(a)
             c.update(codec=rnd.choice(["json", "proto"]), gzip=rnd.random() < 0.25, spell=rnd.choice(["json", "proto"]),
                      invalid="", table=(d % 2 == 0), stream=rnd.random() < 0.15, fam="tc", zeropath=(prop == "C07" and d % 3 == 2),
